@@ -459,7 +459,8 @@ def g_new(S, dst=None, allow_bad=True):
     elif r < 0.92:      # header row first
         if not cols:
             cols = S.names(1)
-        n = max(n, 1)
+        if n == 0:
+            S.tags.add('header-only')      # a header and no row: the columns, no rows
         rows = [list(cols)] + [[S.cell() for _ in cols] for _ in range(n)]
         S.emit('(tbl new h%d %s N (D))', dst, enc(rows))
         S.bind(dst, cols, n)
